@@ -32,12 +32,6 @@ Definition chain_of (w : world) (k : svc) : N :=
   end.
 Definition is_local (s : svc_info) : bool := sv_hub s =? 0.
 
-(** textual order of full service ids "hub:chainX:svcK" (all of equal length in the harness) *)
-Definition svc_key (w : world) (k : svc) : N * N * N :=
-  match svc_lookup w k with Some s => (sv_hub s, sv_chain s, k) | None => (0, 0, k) end.
-Definition triple_cmp (a b : N * N * N) : comparison :=
-  let '(a1, a2, a3) := a in let '(b1, b2, b3) := b in
-  match a1 ?= b1 with Eq => match a2 ?= b2 with Eq => a3 ?= b3 | c => c end | c => c end.
 (** decimal digits, most significant first *)
 Fixpoint digits_aux (fuel : nat) (n : N) (acc : list N) : list N :=
   match fuel with
@@ -52,6 +46,14 @@ Fixpoint lex_cmp (a b : list N) : comparison :=
   | _, [] => Gt
   | x :: s, y :: t => match x ?= y with Eq => lex_cmp s t | c => c end
   end.
+(** textual order of full service ids "hub:chainX:svcK" inside an id "from-to-index": hub numbers have four
+    digits, the chain is one letter; the service number K is followed by '-', which sorts before every digit,
+    so "svc1-" < "svc11-" < "svc2-": the digit strings compare lexicographically, a proper prefix first *)
+Definition svc_key (w : world) (k : svc) : N * N * N :=
+  match svc_lookup w k with Some s => (sv_hub s, sv_chain s, k) | None => (0, 0, k) end.
+Definition triple_cmp (a b : N * N * N) : comparison :=
+  let '(a1, a2, a3) := a in let '(b1, b2, b3) := b in
+  match a1 ?= b1 with Eq => match a2 ?= b2 with Eq => lex_cmp (digits a3) (digits b3) | c => c end | c => c end.
 (** [sort.Strings] order of "from-to-index" *)
 Definition id_cmp (w : world) (a b : txid) : comparison :=
   let '(af, at_, ai) := a in let '(bf, bt, bi) := b in
